@@ -670,6 +670,60 @@ Proof. unfold core, wf, bump. simpl. auto. Qed.
 Lemma idle_bump l : idle l -> idle (bump l).
 Proof. unfold idle, bump. simpl. auto. Qed.
 
+(* ---- LruDiskCache::insert_file whose fallback copy stops part-way (insert_by, failing writer) ---- *)
+Lemma insert_by_fail_props s k n s' r t :
+  insert_by s k (Some n) n true = (s', r, t) -> core s -> idle s ->
+  core s' /\ idle s' /\ next_h s' = next_h s /\ cap s' = cap s /\ files_sub s s' /\
+  r <> ROk /\ t = None /\
+  (forall k', In k' (keys (index s')) -> In k' (keys (index s))) /\
+  (n <= cap s -> ~ In k (keys (files s')) /\ ~ In k (keys (index s'))).
+Proof.
+  unfold insert_by. cbv beta iota zeta. intros H ((Hnd & Hsub & Hs) & Hps & Hm) (Hh & Hp).
+  destruct (negb (n <=? cap s)) eqn:G.
+  - inversion H; subst. split_ci; auto.
+    + unfold wf; auto.
+    + repeat split; auto; try discriminate; try (intros k0 Hin; exact Hin); lia.
+  - destruct (lru_remove_props s k) as (R1 & R2 & R3 & R4 & R5 & (Rc & Rp & Rps & Rh & Rn)).
+    set (s1 := lru_remove s k) in *.
+    inversion H; subst; clear H.
+    split_ci; simpl; try congruence; try lia.
+    + unfold wf. simpl. repeat split; auto.
+      * intros k0 Hin. apply keys_aremove. apply R1 in Hin. split; [|tauto]. rewrite R4. apply Hsub. tauto.
+      * apply ksorted_aremove. rewrite R4. exact Hs.
+    + split; [congruence|]. split; [congruence|]. split.
+      * intros k0 Hin. simpl in Hin. apply keys_aremove in Hin. rewrite R4 in Hin. tauto.
+      * split; [discriminate|]. split; [reflexivity|]. split.
+        -- intros k0 Hin. apply R1 in Hin. tauto.
+        -- intros _. split.
+           ++ intros Hin. apply keys_aremove in Hin. tauto.
+           ++ intros Hin. apply R1 in Hin. tauto.
+Qed.
+
+(* ---- LruDiskCache::commit whose final rename fails, from an idle cache ---- *)
+Lemma commit_rename_fails_mid l k n :
+  idle l -> pending_size l = 0 ->
+  commit_rename_fails (mid l k n) (next_h l) =
+  (snd (make_space (bump l) n), if fst (make_space (bump l) n) then RIoErr else RTooLarge).
+Proof.
+  intros (Hh & Hp) Hps. unfold commit_rename_fails, mid, bump, release, set_nh.
+  destruct l as [cp ix ms pd ps fl hd nh ck]. simpl in *. subst. simpl.
+  rewrite N.eqb_refl. simpl. rewrite ?N.eqb_refl, ?bytes_eqb_refl. simpl.
+  replace (0 - 0) with 0 by reflexivity.
+  unfold set_pending, set_handles. simpl.
+  match goal with |- context [make_space ?a ?m] => destruct (make_space a m) as [ok s2] end. reflexivity.
+Qed.
+
+Lemma make_space_idle_props l n :
+  core l -> idle l ->
+  core (snd (make_space l n)) /\ idle (snd (make_space l n)) /\
+  files_sub l (snd (make_space l n)) /\
+  (forall k, In k (keys (index (snd (make_space l n)))) -> In k (keys (index l))).
+Proof.
+  intros (W & Hps & Hm) (Hh & Hp). destruct (make_space l n) as [ok s2] eqn:M. simpl.
+  destruct (make_space_props _ _ _ _ M W) as ((Ec & Ep & Eps & Eh & En) & C2 & W2 & M2 & O2 & I2 & F2 & S2).
+  split_ci; try congruence; try lia. repeat split; auto.
+Qed.
+
 (* ====================================================================== *)
 (* D. ids and paths                                                        *)
 (* ====================================================================== *)
@@ -902,9 +956,40 @@ Proof.
   apply tinv_mk; auto.
 Qed.
 
+Lemma tinv_insert_with_xdev s i b :
+  tinv s -> tinv (fst (fst (tc_insert_with_xdev digest s i b))).
+Proof.
+  intros T. pose proof T as (C & I & CS & G). unfold tc_insert_with_xdev.
+  destruct (valid_id i); simpl; [|exact T].
+  rewrite receive_idle by assumption.
+  pose proof C as (W & Hps & Hm).
+  destruct (bytes_eqb (digest b) i).
+  - rewrite commit_rename_fails_mid by assumption. simpl.
+    destruct (make_space_idle_props (bump (lru s)) (blen b) (core_bump _ C) (idle_bump _ I)) as (C2 & I2 & F2 & _).
+    apply tinv_mk; auto.
+  - rewrite abandon_mid by assumption. simpl.
+    apply tinv_mk; auto using idle_bump, files_sub_bump, core_bump.
+Qed.
+
+Lemma tinv_insert_file_copy s b fits :
+  tinv s -> tinv (fst (fst (fst (tc_insert_file_copy digest s b fits)))).
+Proof.
+  intros T. destruct fits.
+  - exact (tinv_insert_file s b T).
+  - pose proof T as (C & I & CS & G). unfold tc_insert_file_copy.
+    destruct (valid_id (digest b)); simpl; [|exact T].
+    destruct (insert_by (lru s) (key_path (digest b)) (Some (blen b)) (blen b) true) as [[l1 r] t] eqn:IB.
+    destruct (insert_by_fail_props _ _ _ _ _ _ IB C I) as (C1 & I1 & _ & _ & F1 & R & _ & _ & _).
+    destruct r; simpl; try congruence; apply tinv_mk; auto.
+Qed.
+
 Lemma tinv_step s o : tinv s -> tinv (fst (tstep digest s o)).
 Proof.
-  intros T. destruct o as [i b f|i b c|b|i|i|i|c]; simpl.
+  intros T. destruct o as [i b f|i b c|b|i|i|i|c|i b|b fits]; simpl.
+  8: { pose proof (tinv_insert_with_xdev s i b T) as H.
+       destruct (tc_insert_with_xdev digest s i b) as [[s' r] t]. exact H. }
+  8: { pose proof (tinv_insert_file_copy s b fits T) as H.
+       destruct (tc_insert_file_copy digest s b fits) as [[[s' r] t] ret]. exact H. }
   - pose proof (tinv_insert_with s i b f T) as H.
     destruct (tc_insert_with digest s i b f) as [[s' r] t]. exact H.
   - apply tinv_crash_upload. exact T.
@@ -994,6 +1079,7 @@ Proof. intros T s. apply content_matches_state. apply tinv_run. exact T. Qed.
 Definition op_contents (o : top) : list bytes :=
   match o with
   | TInsertWith _ b _ => [b] | TCrashUpload _ b _ => [b] | TInsertFile b => [b]
+  | TInsertWithXdev _ b => [b] | TInsertFileCopy b _ => [b]
   | _ => []
   end.
 
@@ -1017,7 +1103,16 @@ Lemma cont_step digest s o e :
 Proof.
   assert (Old : In e (cont s) -> In (snd e) (map snd (cont s) ++ op_contents o)).
   { intros H. apply in_app_iff. left. apply in_map. exact H. }
-  destruct o as [i b f|i b c|b|i|i|i|c]; simpl.
+  destruct o as [i b f|i b c|b|i|i|i|c|i b|b fits]; simpl.
+  8: { unfold tc_insert_with_xdev. destruct (valid_id i); simpl; auto.
+       destruct (receive s i b) as [[l2 r] h]. destruct r; simpl; try (intros H; apply cont_mk in H; auto).
+       destruct (bytes_eqb (digest b) i); simpl; [|intros H; apply cont_mk in H; auto].
+       destruct (commit_rename_fails l2 h) as [l3 r3]. simpl. intros H. apply cont_mk in H. auto. }
+  8: { unfold tc_insert_file_copy. destruct (valid_id (digest b)); simpl; auto.
+       destruct (insert_by (lru s) (key_path (digest b)) (Some (blen b)) (blen b) (negb fits)) as [[l1 r] t].
+       destruct r; simpl; try (intros H; apply cont_mk in H; auto).
+       intros H. apply cont_mk_put in H. destruct H as [->|H]; auto.
+       apply in_app_iff. right. simpl. auto. }
   - unfold tc_insert_with. destruct (valid_id i); simpl; auto.
     destruct (receive s i b) as [[l2 r] h]. destruct r; simpl; try (intros H; apply cont_mk in H; auto).
     destruct f; simpl; [intros H; apply cont_mk in H; auto|].
@@ -1172,16 +1267,20 @@ Proof.
 Qed.
 
 (* ---- the client side ---- *)
+Lemma tinv_cput_new digest s w b ins :
+  tinv digest (fst (fst (fst ins))) -> tinv digest (tcs (fst (cput_new digest s w b ins))).
+Proof. destruct ins as [[[s' r] t] ret]. simpl. intros H. destruct r; exact H. Qed.
+
 Lemma tinv_cstep digest s o : tinv digest (tcs s) -> tinv digest (tcs (fst (cstep digest s o))).
 Proof.
-  intros T. destruct o as [w b f|i|c]; simpl.
+  intros T. destruct o as [w b f|i|c|w b fits]; simpl.
   - destruct (alookup w (weak s)); [exact T|]. destruct f; [exact T|].
-    pose proof (tinv_insert_file digest (tcs s) b T) as H.
-    destruct (tc_insert_file digest (tcs s) b) as [[[s' r] t] ret]. simpl in H.
-    destruct r; exact H.
+    apply tinv_cput_new. apply tinv_insert_file. exact T.
   - pose proof (tinv_get digest (tcs s) i T) as H.
     destruct (tc_get digest (tcs s) i) as [[[s' r] t] ret]. exact H.
   - apply tinv_reopen. exact T.
+  - destruct (alookup w (weak s)); [exact T|].
+    apply tinv_cput_new. apply tinv_insert_file_copy. exact T.
 Qed.
 
 Lemma tinv_crun digest ops : forall s, tinv digest (tcs s) -> tinv digest (tcs (crun digest s ops)).
@@ -1200,4 +1299,115 @@ Proof.
   simpl in H. destruct (tc_get digest (tcs s) i) as [[[s1 r] t1] ret1] eqn:G.
   inversion H; subst.
   destruct (content_matches_state digest (tcs s) Ts i) as (_ & GM). eapply GM. exact G.
+Qed.
+
+(* ---- C17_failed_rename_leaves_nothing / C17_failed_copy_leaves_nothing ---- *)
+
+(* [s'] holds nothing that [s] did not hold: no new index entry, no new file, every
+   remaining file with its old content, no temp file *)
+Definition nothing_new (s s' : tst) : Prop :=
+  handles (lru s') = [] /\
+  (forall k, In k (keys (files (lru s'))) -> In k (keys (files (lru s)))) /\
+  (forall j, tc_contains s' j = true -> tc_contains s j = true) /\
+  (forall j c, content_of s' j = Some c -> content_of s j = Some c).
+
+Lemma nothing_new_mk s l' :
+  idle l' -> files_sub (lru s) l' ->
+  (forall k, In k (keys (index l')) -> In k (keys (index (lru s)))) ->
+  nothing_new s (mk s l').
+Proof.
+  intros (Hh & _) FS IS. unfold nothing_new, mk. cbn [lru cont]. split; [exact Hh|]. split; [exact FS|]. split.
+  - intros j. unfold tc_contains. cbn [lru]. intros H. apply andb_true_iff in H. destruct H as [Hv Hi].
+    rewrite Hv. simpl. apply amem_In. apply IS. apply amem_In. exact Hi.
+  - intros j c. unfold content_of. cbn [lru cont]. rewrite alookup_restrict.
+    destruct (amem (key_path j) (files l')) eqn:M; [|discriminate].
+    intros H. apply amem_In in M. apply FS in M. apply amem_In in M. rewrite M. exact H.
+Qed.
+
+Lemma failed_rename_state digest s i b :
+  tinv digest s ->
+  exists s' r, tc_insert_with_xdev digest s i b = (s', r, None) /\ r <> TOk /\ nothing_new s s'.
+Proof.
+  intros (C & I & CS & G). unfold tc_insert_with_xdev.
+  destruct (valid_id i) eqn:Hv; simpl.
+  - rewrite receive_idle by assumption. pose proof C as (W & Hps & Hm).
+    destruct (bytes_eqb (digest b) i).
+    + rewrite commit_rename_fails_mid by assumption. simpl.
+      destruct (make_space_idle_props (bump (lru s)) (blen b) (core_bump _ C) (idle_bump _ I)) as (C2 & I2 & F2 & X2).
+      eexists _, _. split; [reflexivity|]. split.
+      * destruct (fst (make_space (bump (lru s)) (blen b))); discriminate.
+      * apply nothing_new_mk; auto.
+    + rewrite abandon_mid by assumption. simpl. eexists _, _. split; [reflexivity|]. split; [discriminate|].
+      apply nothing_new_mk; auto using idle_bump, files_sub_bump.
+  - exists s, TRejected. split; [reflexivity|]. split; [discriminate|].
+    destruct I as (Hh & Hp). repeat split; auto.
+Qed.
+
+Theorem failed_rename_leaves_nothing digest s0 ops i b :
+  tinv digest s0 ->
+  let s := trun digest s0 ops in
+  exists s' r, tc_insert_with_xdev digest s i b = (s', r, None) /\ r <> TOk /\
+    handles (lru s') = [] /\
+    (forall k, In k (keys (files (lru s'))) -> In k (keys (files (lru s)))) /\
+    (forall j, tc_contains s' j = true -> tc_contains s j = true) /\
+    (forall j c, content_of s' j = Some c -> content_of s j = Some c).
+Proof.
+  intros T s. pose proof (tinv_run digest ops s0 T) as Ts. fold s in Ts.
+  destruct (failed_rename_state digest s i b Ts) as (s' & r & E & R & N).
+  exists s', r. split; [exact E|]. split; [exact R|]. exact N.
+Qed.
+
+Lemma failed_copy_state digest s b :
+  tinv digest s ->
+  exists s' r, tc_insert_file_copy digest s b false = (s', r, None, []) /\ r <> TOk /\ nothing_new s s' /\
+    (blen b <= cap (lru s) -> valid_id (digest b) = true ->
+       tc_contains s' (digest b) = false /\ content_of s' (digest b) = None).
+Proof.
+  intros (C & I & CS & G). unfold tc_insert_file_copy.
+  destruct (valid_id (digest b)) eqn:Hv; simpl.
+  - destruct (insert_by (lru s) (key_path (digest b)) (Some (blen b)) (blen b) true) as [[l1 r] t] eqn:IB.
+    destruct (insert_by_fail_props _ _ _ _ _ _ IB C I) as (C1 & I1 & _ & _ & F1 & R & _ & X1 & Gone).
+    assert (E : (let '(l1, r, _) := (l1, r, t) in
+                 match r with ROk => (mk_put s l1 (key_path (digest b)) b, TOk, t, [digest b])
+                            | _ => (mk s l1, of_res r, None, []) end) = (mk s l1, of_res r, None, []))
+      by (destruct r; congruence).
+    exists (mk s l1), (of_res r). split; [destruct r; congruence|]. split.
+    + intros Hx. apply of_res_ok in Hx. contradiction.
+    + split; [apply nothing_new_mk; auto|].
+      intros Hle _. destruct (Gone Hle) as (Nf & Ni). unfold tc_contains, content_of, mk. cbn [lru cont]. split.
+      * rewrite Hv. simpl. apply amem_false. exact Ni.
+      * replace (amem (key_path (digest b)) (files l1)) with false by (symmetry; apply amem_false; exact Nf). reflexivity.
+  - exists s, TRejected. split; [reflexivity|]. split; [discriminate|]. split.
+    + destruct I as (Hh & Hp). repeat split; auto.
+    + intros _ Hx. discriminate.
+Qed.
+
+Theorem failed_copy_leaves_nothing digest s0 ops b :
+  tinv digest s0 ->
+  let s := trun digest s0 ops in
+  exists s' r, tc_insert_file_copy digest s b false = (s', r, None, []) /\ r <> TOk /\
+    handles (lru s') = [] /\
+    (forall k, In k (keys (files (lru s'))) -> In k (keys (files (lru s)))) /\
+    (forall j, tc_contains s' j = true -> tc_contains s j = true) /\
+    (forall j c, content_of s' j = Some c -> content_of s j = Some c) /\
+    (blen b <= cap (lru s) -> valid_id (digest b) = true ->
+       tc_contains s' (digest b) = false /\ content_of s' (digest b) = None).
+Proof.
+  intros T s. pose proof (tinv_run digest ops s0 T) as Ts. fold s in Ts.
+  destruct (failed_copy_state digest s b Ts) as (s' & r & E & R & (N1 & N2 & N3 & N4) & Gone).
+  exists s', r. repeat (split; [assumption|]). exact Gone.
+Qed.
+
+(* ---- known finding C17-K1: a crash inside insert_file's fall-back copy ---- *)
+Definition k1_digest (b : bytes) : id := map (fun x => 97 + x mod 6) b ++ [48; 48].
+
+Lemma crash_in_fallback_copy_refuted :
+  exists (digest : bytes -> id) (s0 : tst) (b : bytes) (k : nat) (c : N),
+    tinv digest s0 /\
+    let s := tc_crash_insert_file_copy digest s0 b k c in
+    tc_contains s (digest b) = true /\
+    exists served, content_of s (digest b) = Some served /\ digest served <> digest b.
+Proof.
+  exists k1_digest, (tc_empty 100), [1; 2; 3; 4], 2%nat, 100. split; [apply tinv_empty|].
+  vm_compute. split; [reflexivity|]. eexists. split; [reflexivity|]. discriminate.
 Qed.
